@@ -36,6 +36,7 @@ func evalBytePred(f *ssa.Function, args []constant.Value, depth int) (res bool, 
 	}
 	b := f.Blocks[0]
 	var prev *ssa.BasicBlock
+	tuples := map[ssa.Value]bool{}
 	for steps := 0; steps < 400; steps++ {
 		// phis first
 		newv := map[ssa.Value]constant.Value{}
@@ -96,9 +97,6 @@ func evalBytePred(f *ssa.Function, args []constant.Value, depth int) (res bool, 
 				env[x] = constant.MakeBool(!constant.BoolVal(o))
 			case *ssa.Lookup:
 				// a read-only package-level map from constants to true
-				if x.CommaOk {
-					return false, false
-				}
 				ld, isLd := x.X.(*ssa.UnOp)
 				if !isLd {
 					return false, false
@@ -117,6 +115,30 @@ func evalBytePred(f *ssa.Function, args []constant.Value, depth int) (res bool, 
 					if kk == constant.StringVal(k) {
 						hit = true
 					}
+				}
+				if x.CommaOk {
+					// `v, ok := table[k]`: with a table whose entries are all true, both are "k is a key"
+					allTrue := true
+					if init, _ := g.Pkg.Members["init"].(*ssa.Function); init != nil {
+						ir.Instrs(init, func(in2 ssa.Instruction) {
+							if mu, isMu := in2.(*ssa.MapUpdate); isMu {
+								if v, isB := ir.ConstBool(mu.Value); isB && !v {
+									allTrue = false
+								}
+							}
+						})
+					}
+					if !allTrue {
+						return false, false
+					}
+					tuples[x] = hit
+					continue
+				}
+				env[x] = constant.MakeBool(hit)
+			case *ssa.Extract:
+				hit, okT := tuples[x.Tuple]
+				if !okT {
+					return false, false
 				}
 				env[x] = constant.MakeBool(hit)
 			case *ssa.Convert:
